@@ -8,8 +8,44 @@ package transfer
 //@ func (sendTx).Validate
 //@   implements action.Tx
 //@   ensures result0 ==> len(tx.Signatures) == 1 && sigOK(rawBytesOf(tx.RawTx), unm(tx.Data, "Send").From, tx.Signatures[0])   // C04.validate
+//@   exports len(sigs) == 1                                                                                                     // C04.validated-facts
+//@   exports raw.Fee.Price.Currency == ctx.FeePool.feeOpt.FeeCurrency.Name && raw.Fee.Price.Value >= 0                          // C04.validated-facts
+
+//@ func (sendTx).ProcessCheck
+//@   implements action.Tx
+//@ func (sendTx).ProcessDeliver
+//@   implements action.Tx
+//@ func (sendTx).ProcessFee
+//@   implements action.Tx
 
 //@ func runTx
-//@   requires ctx != nil && ctx.Balances != nil && curOK(ctx.Currencies)
+//@   requires ctxOK(ctx)                                                                                                        // C18.ctx
 //@   ensures result0 ==> forall c string :: balTotal(ctx.Balances)[c] == old(balTotal(ctx.Balances))[c]                          // C02.conserve
 //@   ensures result0 ==> forall k string :: bal(ctx.Balances)[k] < old(bal(ctx.Balances))[k] ==> k == balKey(unm(tx.Data, "Send").From, unm(tx.Data, "Send").Amount.Currency)   // C03.only-signer-debited
+
+// ---------------------------------------------------------------- send to pool
+
+// amtOK: the amount passes action.Amount.IsValid: registered currency, value >= 0
+//@ ghost func amtOK(a action.Amount, l *balance.CurrencySet) bool = has(l.nameMap, a.Currency) && l.nameMap[a.Currency].Name != "" && a.Value >= 0
+
+//@ func (sendPoolTx).Validate
+//@   implements action.Tx
+//@   safety C18
+//@   assumes has(ctx.Currencies.idMap, 0)                                                                                       // A-GENESIS the default currency (id 0) is registered
+//@   ensures result0 ==> len(signedTx.Signatures) == 1 && sigOK(rawBytesOf(signedTx.RawTx), unm(signedTx.Data, "SendPool").From, signedTx.Signatures[0])   // C04.validate
+//@   exports len(sigs) == 1                                                                                                     // C04.validated-facts
+//@   exports raw.Fee.Price.Currency == ctx.FeePool.feeOpt.FeeCurrency.Name && raw.Fee.Price.Value >= 0                          // C04.validated-facts
+//@   exports amtOK(unm(raw.Data, "SendPool").Amount, ctx.Currencies)                                                            // C02.validated-facts
+
+//@ func (sendPoolTx).ProcessCheck
+//@   implements action.Tx
+//@ func (sendPoolTx).ProcessDeliver
+//@   implements action.Tx
+//@ func (sendPoolTx).ProcessFee
+//@   implements action.Tx
+
+//@ func runSendPool
+//@   requires ctxOK(ctx)                                                                                                        // C18.ctx
+//@   requires amtOK(unm(tx.Data, "SendPool").Amount, ctx.Currencies)                                                            // C02.validated-facts
+//@   ensures result0 ==> forall c string :: balTotal(ctx.Balances)[c] == old(balTotal(ctx.Balances))[c]                          // C02.conserve
+//@   ensures result0 ==> forall k string :: bal(ctx.Balances)[k] < old(bal(ctx.Balances))[k] ==> k == balKey(unm(tx.Data, "SendPool").From, unm(tx.Data, "SendPool").Amount.Currency)   // C03.only-signer-debited
